@@ -131,6 +131,16 @@ def build(t, part, chooser=None, handler_checkpoint=False):
             for ns in ('/', '/a'):
                 w.s.on('connect', on_connect, namespace=ns)
                 w.s.on('disconnect', on_disconnect, namespace=ns)
+            if part.get('catchall_event'):
+                # something is registered on the catch-all namespace (an ordinary event): that does not make the server
+                # serve namespaces it was not asked to serve
+                if asyncio_:
+                    async def anyns(ns, sid, *a):
+                        return None
+                else:
+                    def anyns(ns, sid, *a):
+                        return None
+                w.s.on('ping', anyns, namespace='*')
     return w, log, served
 
 
@@ -378,6 +388,10 @@ def hist_parts(tier):
             for k0 in range(4):
                 out.append({'async': a, 'always_connect': ac, 'nsconf': 'default', 'classns': False, 'auth_required': True,
                             'n': n - 1, 'slice': [4, k0]})
+            if not ac:
+                for nsconf in ('default', 'list'):
+                    out.append({'async': a, 'always_connect': ac, 'nsconf': nsconf, 'classns': False, 'catchall_event': True,
+                                'n': 1})
             if a:
                 for k0 in range(4):
                     out.append({'async': a, 'always_connect': ac, 'nsconf': 'list', 'classns': True, 'plain_methods': True, 'n': n,
